@@ -746,7 +746,8 @@ def odd_bodies(ctx, n):
     from usim import time, interval, delay, IntervalExceeded
     rng = ctx.rng
     for _ in range(n):
-        kind = rng.choice(['nested-run', 'nested-run', 'zero-interval-slow-body', 'fraction-delay', 'fraction-interval'])
+        kind = rng.choice(['nested-run', 'nested-run', 'zero-interval-slow-body', 'fraction-delay', 'fraction-interval',
+                           'embedded-env'])
         case = {'odd_body': kind}
         log = []
         if kind == 'nested-run':
@@ -764,6 +765,32 @@ def odd_bodies(ctx, n):
                     k += 1
                     if k == 3:
                         break
+            want = [(p * (i + 1), p * (i + 1)) for i in range(3)]
+        elif kind == 'embedded-env':
+            # a SimPy-layer environment whose initial_time lies ahead is entered in the same simulation: it has to WAIT for
+            # that time - the shared clock must not jump, a usim ticker keeps its grid
+            from usim.py import Environment
+            p, T0 = rng.choice([2, 3]), rng.choice([7, 9])
+            make = rng.choice([interval, delay])
+            case.update(period=p, initial_time=T0, ticker=make.__name__)
+
+            async def ticker():
+                k = 0
+                async for now in make(p):
+                    log.append((now, time.now))
+                    k += 1
+                    if k == 3:
+                        break
+
+            async def main():
+                async with usim.Scope() as scope:
+                    scope.do(ticker())
+                    env = Environment(initial_time=T0)
+
+                    def proc(env):
+                        yield env.timeout(1)
+                    env.process(proc(env))
+                    await env.until()
             want = [(p * (i + 1), p * (i + 1)) for i in range(3)]
         elif kind == 'zero-interval-slow-body':
             d = rng.choice([1, 2])
